@@ -1,3 +1,3 @@
 from vlib import H
 PROPERTY='T00'; CLAIM='dev'; DISABLED=True
-HARNESSES=[H('t','t.cpp','h_t',link=['primitives/transaction.cpp','uint256.cpp','hash.cpp','script/script.cpp'],variants=[{'STEP':1},{'STEP':2}],unwind=12,timeout=60,objbits=10)]
+HARNESSES=[H('um','um.cpp','h_um',variants=[{'STEP':1},{'STEP':2},{'STEP':3}],unwind=20,timeout=60,objbits=10,memunwind=112)]
